@@ -24,6 +24,7 @@ package actor
 
 import (
 	"github.com/tochemey/goakt/v4/errors"
+	"github.com/tochemey/goakt/v4/internal/verifhook"
 	"github.com/tochemey/goakt/v4/log"
 )
 
@@ -86,6 +87,7 @@ func (x *deathWatch) handleTerminated(ctx *ReceiveContext) error {
 	}
 
 	actorTree := actorSys.tree()
+	verifhook.At("dw.term", actorTree, 0, 0)
 	if node, ok := actorTree.node(path.String()); ok {
 		pid := node.value()
 
